@@ -31,13 +31,13 @@ package truststore
 //@ pure func fromEntry(c *x509.Certificate, p string) bool = exists(i, 0, len(dirEntries(p)), regularEntry(dirEntries(p)[i]) && fileCertsErr(joinPath(p, deName(dirEntries(p)[i]))) == nil && certInFile(c, joinPath(p, deName(dirEntries(p)[i]))))
 
 //@ func (*x509TrustStore).GetCertificates
-//@ props C13
+//@ props C13 C03
 //@ requires trustStore != nil && trustStore.trustStorefs != nil
 //@ ensures[C13.named-store] result1 == nil ==> validType(storeType) && plainFileName(namedStore) && sysPathErr(trustStore.trustStorefs, x509StoreRel(string(storeType), namedStore)) == nil && realDir(storePath(trustStore, storeType, namedStore))
 //@ ensures[C13.entries-regular] result1 == nil ==> forall(i, 0, len(dirEntries(storePath(trustStore, storeType, namedStore))), regularEntry(dirEntries(storePath(trustStore, storeType, namedStore))[i]) && fileCertsErr(joinPath(storePath(trustStore, storeType, namedStore), deName(dirEntries(storePath(trustStore, storeType, namedStore))[i]))) == nil)
 //@ ensures[C13.provenance] result1 == nil ==> forall(c, 0, len(result), result[c] != nil && fromEntry(result[c], storePath(trustStore, storeType, namedStore)) && certOK(result[c]) && (storeType == TypeTSA ==> rootCA(result[c])))
-//@ ensures[C13.nonempty] result1 == nil ==> len(result) >= 1
-//@ ensures[C13.no-partial] result1 != nil ==> result == nil
+//@ ensures[C13.nonempty,C03.empty-store-fails] result1 == nil ==> len(result) >= 1
+//@ ensures[C13.no-partial,C03.no-partial] result1 != nil ==> result == nil
 //@ loop 1 invariant forall(i, 0, rangeindex+1, regularEntry(files[i]) && fileCertsErr(joinPath(path, deName(files[i]))) == nil)
 //@ loop 1 invariant forall(c, 0, len(certificates), certificates[c] != nil && fromEntry(certificates[c], path) && certOK(certificates[c]) && (storeType == TypeTSA ==> rootCA(certificates[c])))
 //@ loop 1 invariant newsince(certificates)
